@@ -1,6 +1,7 @@
 (* Props_C04.v — C04: opacity interpolation in temperature and pressure is sound everywhere. *)
 From Coq Require Import Reals List Lra.
 From TV Require Import Num ListNum Model_C04 Proofs_C04.
+From TV Require Import NumIv Reflect.
 Import ListNotations.
 Local Open Scope R_scope.
 
@@ -80,3 +81,22 @@ Print Assumptions C04_exp_form.
 Example C04_nonvacuous : wf_grid [100; 200] /\ wf_grid [2; 4] /\ ~ below_both [100;200] [2;4] 50 5.
 Proof. exact ex_c04. Qed.
 Print Assumptions C04_nonvacuous.
+
+(* ---- the executed (interval) instance encloses the real-number instance the theorems above are about:
+   Reflect.transfer, proved once for every straight-line kernel from the Interval library's correctness lemmas;
+   `defined` lists the side conditions of the real-number side (non-zero denominators, positive logarithm arguments) ---- *)
+Theorem C04_kernels_enclosed :
+  (forall aI bI cI dI eI a b c d e, encloses aI a -> encloses bI b -> encloses cI c -> encloses dI d -> encloses eI e ->
+     defined [a; b; c; d; e] k_lin_e -> encloses (@k_lin I.type IvNum aI bI cI dI eI) (@k_lin R RNum a b c d e)) /\
+  (forall aI bI cI dI eI a b c d e, encloses aI a -> encloses bI b -> encloses cI c -> encloses dI d -> encloses eI e ->
+     defined [a; b; c; d; e] k_exp_e -> encloses (@k_exp I.type IvTNum aI bI cI dI eI) (@k_exp R RTNum a b c d e)) /\
+  (forall aI bI cI dI eI fI gI hI iI jI a b c d e f g h i j,
+     encloses aI a -> encloses bI b -> encloses cI c -> encloses dI d -> encloses eI e -> encloses fI f -> encloses gI g ->
+     encloses hI h -> encloses iI i -> encloses jI j -> defined [a; b; c; d; e; f; g; h; i; j] k_bilin_e ->
+     encloses (@k_bilin I.type IvNum aI bI cI dI eI fI gI hI iI jI) (@k_bilin R RNum a b c d e f g h i j)) /\
+  (forall aI bI cI dI eI fI gI hI iI jI a b c d e f g h i j,
+     encloses aI a -> encloses bI b -> encloses cI c -> encloses dI d -> encloses eI e -> encloses fI f -> encloses gI g ->
+     encloses hI h -> encloses iI i -> encloses jI j -> defined [a; b; c; d; e; f; g; h; i; j] k_explin_e ->
+     encloses (@k_explin I.type IvTNum aI bI cI dI eI fI gI hI iI jI) (@k_explin R RTNum a b c d e f g h i j)).
+Proof. repeat split; [exact k_lin_transfer|exact k_exp_transfer|exact k_bilin_transfer|exact k_explin_transfer]. Qed.
+Print Assumptions C04_kernels_enclosed.
